@@ -4,14 +4,14 @@ import json, os
 ROOT = os.path.dirname(os.path.dirname(os.path.abspath(__file__)))
 TECH = "bounded symbolic execution of the real go/ssa code (symgo) decided by z3/cvc5; counterexamples replayed natively with go test -overlay"
 P = {
- "C01": dict(section="3 C01", text="Decides three kernels of taint soundness for every input within bounds: a parameter mark reaching result k is connected to return node k (real NewSummaryGraph+addReturnEdge, <=3 returns x <=4 results, symbolic index); a call is 'handled as a builtin' (no call node) only for real builtins or error.Error(), every handled call is processed and data-carrying builtins propagate marks (17 callee names x 4 callee kinds x argc<=4); calling-context recursion cut is by call site identity. Program-level soundness is outside what a solver-based encoding of this code base can reach.",
-   note="Hand-built untyped/partly typed SSA skeletons stand in for typed programs; only the named kernels are decided; alias propagation, inter-procedural traversal, closures, globals, defers and all configurations are outside the claim."),
- "C02": dict(section="3 C02", text="Decides on every CFG of <=3 blocks (thorough 4) with symbolic begin/end that FindPathBetweenBlocks returns a real path iff one exists, that SimplePathCondition reports exactly the branches taken on that path, and (known finding KF-C02-single-path) whether a reported condition holds on every path.",
-   note="Sanitizer stop and isValidatorCondition need typed callee values and are outside; the exclusivity clause is a recorded known finding."),
- "C03": dict(section="3 C03", text="Decides that the backward visitor (real backtrace.addNext, following the visitor's prevEdgeInfos protocol) visits the return node of every tuple index for which the forward graph has an out-edge, for <=2 (thorough 3) edges between the same nodes with symbolic tuple indices.",
-   note="Only the tuple-index edge-following kernel; the rest of the backward traversal, base cases, closures, globals and on-demand mode are outside."),
- "C04": dict(section="3 C04", text="Decides that equalOnNonEmptyFields / IsSource / IsSink / IsSanitizer / IsValidator / IsBacktracePoint identify a candidate exactly when every non-empty specification field matches, with all fields symbolic strings (SMT string theory).",
-   note="Symbolic regular expressions range over lowercase literals, for which unanchored match = substring (exactly replayable); construction of the candidate identifier from SSA call forms needs typed SSA and is outside."),
+ "C01": dict(section="3 C01", text="Decides kernels of taint soundness for every input within bounds: a parameter mark reaching result k is connected to return node k (real NewSummaryGraph+addReturnEdge, <=3 returns x <=4 results, symbolic index); a call is 'handled as a builtin' only for real builtins or error.Error(), every handled call is processed and data-carrying builtins propagate marks (17 names x 4 callee kinds x argc<=4); calling-context recursion cut is by call-site identity; block-path search finds a path iff one exists; and end to end on a hand-built main (t0=source(); t1=other(); r=g(t0,t1); sink(v)) summarised by the real RunIntraProcedural with g loaded from every 0/1 specification matrix, the real forward taint Visitor reports the flow exactly when the data reaches the sink. Program-level soundness over arbitrary Go programs is outside what a solver-based encoding of this code base can reach.",
+   note="Hand-built SSA skeletons (struct literals, int-typed values) stand in for typed programs; pointer-typed values and alias propagation, closures, globals, defers, goroutines, rewrites and the configuration options are outside the claim."),
+ "C02": dict(section="3 C02", text="Decides on every CFG of <=3 blocks with symbolic begin/end that FindPathBetweenBlocks returns a real path iff one exists and that SimplePathCondition reports exactly the branches taken on that path (this found defect D8), whether a reported condition holds on every path (known finding KF-C02-single-path), that isValidatorCondition treats (condition, polarity) as validating only if that branch implies the validator returned true / a nil error (negations, nil checks with nil on either side, tuple extraction; symbolic outcome), that a validator condition is attached only to values covered by the validated argument, and end to end (real intra-procedural analysis + real forward taint Visitor) on seven placements of the sink relative to the validated branch, including the single-block loop of D8.",
+   note="Sanitizer stop and validators reached through pointer-typed data are outside; the exclusivity clause over all paths is a recorded known finding."),
+ "C03": dict(section="3 C03", text="Decides that the backward visitor (real backtrace.addNext, following the visitor's prevEdgeInfos protocol) visits the return node of every tuple index for which the forward graph has an out-edge (<=2, thorough 3, edges with symbolic indices), that a reported trace is the visit chain reversed and ends at the backtrace-point argument, and end to end: on a hand-built main (t0=srcA(); t1=srcB(); t2=t[x]+t[y]; sink(v[a0],v[a1])) summarised by the real intra-procedural analysis, the real (*Visitor).Visit reports, for every argument, a trace containing every origin call its value derives from (the same value passed twice to one call is known finding KF-C03-duplicate-argument).",
+   note="Closures, globals, on-demand summarisation and pointer-typed arguments (flows back through callee parameters) are outside."),
+ "C04": dict(section="3 C04", text="Decides that equalOnNonEmptyFields / IsSource / IsSink / IsSanitizer / IsValidator / IsBacktracePoint identify a candidate exactly when every non-empty specification field matches, with all fields symbolic strings (SMT string theory); that the type string a 'type:' specification is matched against is the Go syntax of the value's type for every nesting (<=3) of pointer/slice/array/chan/map around a named type; and that a call through an interface value is identified by a specification naming the interface method's package, wherever the implementation lives.",
+   note="Symbolic regular expressions range over lowercase literals, for which unanchored match = substring (exactly replayable); the remaining construction of candidate identifiers from SSA call forms (function values, bound methods, closures, annotations) is outside."),
  "C05": dict(section="3 C05", text="Decides the max-alarms clause for every int64 limit: the real TestAlarmCount/IncrementAndTestAlarms driven by a model of the three alarm call sites keep at most k flows, at least one when any exists, and everything when k<=0.",
    note="The loop reproducing the three call sites is a model of the visitors; summarize-on-demand / pkg-filter / report-* equivalence needs whole analysis runs and is outside."),
  "C06": dict(section="3 C06", text="Decides on every rendezvous schedule that MapParallel's result does not depend on the worker count, and that summary-graph edges do not depend on the order in which marks are inserted nor on the iteration order of the Returns map (engine forks over all map orders).",
@@ -22,20 +22,20 @@ P = {
    note="Claim holds under NumValues*NumInstructions < 2^32; generated functions use 10 value-typed instruction kinds; Field/FieldAddr/Store/MapUpdate/Send, pointer aliasing, closures, globals and defers simulation are outside."),
  "C09": dict(section="3 C09", text="Decides the loader lemma for symbolic positions (-2..8) against every arity <=4 params (thorough 6) x <=3 results: a by-position edge of a predefined summary is accepted exactly when both positions exist, is mirrored, and a rejected one leaves the graph unchanged; and checks every entry of the built-in table (extracted from /repo's current source and resolved against the real signatures of this Go installation on every run) through the real loader: a flow listed from an existing argument to an existing class of targets is never dropped.",
    note="Whether the listed flows cover a function's real behaviour needs symbolic execution of standard-library bodies and is outside; table keys that do not resolve in this Go version are counted and skipped; the table part is finite concrete data, the solver's role there is path uniformity with the lemma."),
- "C10": dict(section="3 C10", text="Decides that PopulateGraphFromSummary applies a symbolic argument-to-result / argument-to-argument matrix exactly as written (edge iff listed, mirrored in/out, flags, nothing else) and that LoadExternalContractSummary gives an interface-method contract precedence over a function contract.",
+ "C10": dict(section="3 C10", text="Decides that PopulateGraphFromSummary applies a symbolic argument-to-result / argument-to-argument matrix exactly as written (edge iff listed, mirrored in/out, flags, nothing else), that LoadExternalContractSummary gives an interface-method contract precedence over a function contract, and end to end (shared with C01) that the forward taint Visitor propagates through a specified function exactly when the specification lists the result for the tainted argument - no transitive closure over argument-to-argument entries.",
    note="JSON loading, contract name linking, ShouldBuildSummary and call-form resolution are outside."),
  "C14": dict(section="3 C14", text="Decides the graph invariant locality rests on: after every sequence of <=3 API operations on <=3 nodes (symbolic statuses) a pointee's status is at least its pointer's, status >= intrinsic, and derefsAreLocal answers nil exactly when every pointee is Local.",
    note="The ~40 escape transfer cases, Call instantiation and context resolution need typed SSA and are outside."),
- "C15": dict(section="3 C15", text="Decides the join-semilattice laws of EscapeGraph.Merge (idempotent, commutative, upper bound; thorough: associative, least), extensivity and monotonicity of AddEdge/MergeNodeStatus/Merge, and Clone independence on graphs over 2 nodes built by the real API.",
-   note="Representation invariant: status changes are preceded by AddNode (as every real call site does); transferFunction, Call and block fixpoint order are outside."),
+ "C15": dict(section="3 C15", text="Decides the join-semilattice laws of EscapeGraph.Merge (idempotent, commutative, upper bound; thorough: associative, least), extensivity and monotonicity of AddEdge/MergeNodeStatus/Merge, Clone independence on graphs over 2 nodes built by the real API, and that StronglyConnectedComponents returns a partition into maximal classes in callee-first order on every directed graph of 3 (thorough 4) nodes.",
+   note="Representation invariant: status changes are preceded by AddNode (as every real call site does); the typed transfer functions, Call instantiation and the per-function block worklist are outside."),
  "C16": dict(section="3 C16", text="Decides stackCompare (total order, symbolic int64 indices), stackSetUnion (sorted duplicate-free union, sameAsA), stackPushed (always copies), dataflowTransfer, and the whole AnalyzeFunction against a path-enumeration oracle on every CFG of 2 (thorough 3) blocks, including termination.",
    note="CFGs with more blocks or several defers per block rely on the size-generic lemmas; the consumer in the intra-procedural analysis is outside."),
  "C17": dict(section="3 C17", text="Decides after each of 2 (thorough 3) symbolic insertions through addEdge / addParamEdgeByPos / addReturnEdgeByPos that an out-edge exists iff the in-edge exists and that the in-edge index is an out-edge index (strict per-index mirroring is known finding KF-C17-inedge-single-index), and that SyncGlobals registers exactly the read/write access nodes.",
    note="BuildGraph/Sync linking of call sites needs function names and is outside."),
  "C19": dict(section="3 C19", text="Decides findGoFunctions / findRecoverFunctions / findErroredFunctions exactly on every skeleton program of 2 (thorough 3) functions x 2 instruction slots over the static launch forms, and allowListed on a labelled path table.",
    note="go iface.M() and go fv() (dynamic launch forms) need points-to facts and are outside the claim - this is where the implementation is known to be incomplete."),
- "C20": dict(section="3 C20", text="Decides over every rendezvous schedule of the interpreted goroutines/channels/WaitGroup that MapParallel returns f(a[i]) in input order, never deadlocks, never leaks a goroutine, never sends on a closed channel, for len<=2 (thorough 3) and numRoutines in [-1,2] (thorough 3).",
-   note="The user function is assumed not to touch shared state; data-race freedom of the shared AnalyzerState and report-file completeness need the race detector on whole runs and are outside."),
+ "C20": dict(section="3 C20", text="Decides over every rendezvous schedule of the interpreted goroutines/channels/WaitGroup that MapParallel returns f(a[i]) in input order, never deadlocks, never leaks a goroutine, never sends on a closed channel (len<=2, thorough 3; numRoutines in [-1,2], thorough 3), and - with happens-before (vector-clock) race detection over every schedule of lock/unlock operations - that two workers performing arbitrary operations on the shared GlobalNode read/write locations, the AnalyzerState error table and the alarm counter never make unsynchronised conflicting accesses.",
+   note="The mapped function is assumed pure; races on other shared structures (flow graph insertion, report writers) and report-file completeness are outside; a race is printed as a VIOLATION only when go test -race confirms it natively."),
 }
 NA = {
  "C11": "pointer analysis vs run-time aliasing: constraint generation over typed whole-program SSA and the intsets/HVN solver cannot be encoded symbolically within reach (DESIGN §4)",
